@@ -348,3 +348,112 @@ Definition check_full (nc : bool) (progs : list (list op)) (sched : list tid)
 Definition check_ops (nc : bool) (progs : list (list op)) (sched : list tid)
            (observed : list event) : nat :=
   if events_eqb (filter op_level (model_log nc progs sched)) observed then 0 else 1.
+
+(** * pypyr.moduleloader.add_sys_path — the same check-then-act-under-a-lock shape
+
+    {v
+    def add_sys_path(path):                          pc
+        if path in _known_dirs: return               A0
+        path_obj = ...
+        if not path_obj.exists():
+            _known_dirs.add(path); return            (A0 ->) AKnown
+        path_str = str(path_obj)
+        with _sys_path_lock:                         AAcquire (blocked = no-op)
+            if path_str not in sys.path:             ACheck
+                sys.path.append(path_str)            AAppend
+                                                     ARelease
+        _known_dirs.add(path)                        AKnown
+    v}
+    [sys.path] = [base ++ added]; [base] is whatever it held before. *)
+Inductive apc := A0 | AAcquire | ACheck | AAppend | ARelease | AKnown.
+Definition aop := (string * bool)%type.   (* path, path exists on disk *)
+Record athread := mkATh { aprog : list aop; apcv : apc }.
+Inductive aevent :=
+| AEAcq (t : tid) | AERel (t : tid) | AEAppend (t : tid) (p : string) | AEKnown (t : tid) (p : string).
+
+Record astate := mkASt {
+  athreads : tid -> athread;
+  base : list string;
+  added : list string;
+  known : list string;
+  alock : option tid;
+  alog : list aevent
+}.
+
+Definition aupd (f : tid -> athread) (t : tid) (th : athread) : tid -> athread :=
+  fun t' => if Nat.eqb t' t then th else f t'.
+
+Definition astep (t : tid) (st : astate) : astate :=
+  let th := athreads st t in
+  match aprog th with
+  | [] => st
+  | (p, ex) :: rest =>
+      let goto pc' := aupd (athreads st) t (mkATh (aprog th) pc') in
+      match apcv th with
+      | A0 =>
+          if str_in p (known st)
+          then mkASt (aupd (athreads st) t (mkATh rest A0)) (base st) (added st) (known st)
+                     (alock st) (alog st)
+          else mkASt (goto (if ex then AAcquire else AKnown)) (base st) (added st) (known st)
+                     (alock st) (alog st)
+      | AAcquire =>
+          match alock st with
+          | None => mkASt (goto ACheck) (base st) (added st) (known st) (Some t)
+                          (AEAcq t :: alog st)
+          | Some _ => st
+          end
+      | ACheck =>
+          mkASt (goto (if str_in p (base st ++ added st) then ARelease else AAppend))
+                (base st) (added st) (known st) (alock st) (alog st)
+      | AAppend =>
+          mkASt (goto ARelease) (base st) (added st ++ [p]) (known st) (alock st)
+                (AEAppend t p :: alog st)
+      | ARelease =>
+          mkASt (goto AKnown) (base st) (added st) (known st) None (AERel t :: alog st)
+      | AKnown =>
+          mkASt (aupd (athreads st) t (mkATh rest A0)) (base st) (added st) (p :: known st)
+                (alock st) (AEKnown t p :: alog st)
+      end
+  end.
+
+Fixpoint arun (sched : list tid) (st : astate) : astate :=
+  match sched with
+  | [] => st
+  | t :: rest => arun rest (astep t st)
+  end.
+
+Definition ainit (sp0 : list string) (progs : list (list aop)) : astate :=
+  mkASt (fun t => mkATh (nth t progs []) A0) sp0 [] [] None [].
+
+Definition aholds (th : athread) : bool :=
+  match aprog th with
+  | [] => false
+  | _ :: _ => match apcv th with ACheck | AAppend | ARelease => true | _ => false end
+  end.
+
+Definition aevent_eqb (a b : aevent) : bool :=
+  match a, b with
+  | AEAcq t, AEAcq u | AERel t, AERel u => Nat.eqb t u
+  | AEAppend t p, AEAppend u q | AEKnown t p, AEKnown u q => andb (Nat.eqb t u) (String.eqb p q)
+  | _, _ => false
+  end.
+
+Fixpoint aevents_eqb (a b : list aevent) : bool :=
+  match a, b with
+  | [], [] => true
+  | x :: a', y :: b' => andb (aevent_eqb x y) (aevents_eqb a' b')
+  | _, _ => false
+  end.
+
+Fixpoint strs_eqb (a b : list string) : bool :=
+  match a, b with
+  | [], [] => true
+  | x :: a', y :: b' => andb (String.eqb x y) (strs_eqb a' b')
+  | _, _ => false
+  end.
+
+(** 0 = event log and the entries appended to sys.path agree *)
+Definition check_asp (sp0 : list string) (progs : list (list aop)) (sched : list tid)
+           (observed : list aevent) (appended : list string) : nat :=
+  let st := arun sched (ainit sp0 progs) in
+  if andb (aevents_eqb (rev (alog st)) observed) (strs_eqb (added st) appended) then 0 else 1.
